@@ -480,13 +480,18 @@ def check_jacobian(case, ctx):
     R = np.array([np.asarray(fac * _wrap(rawx) * cosd, "f8"), np.asarray(fac * _wrap(rawy) * cosd, "f8"),
                   np.asarray(fac * (dxp - dxm), "f8"), np.asarray(fac * (dyp - dym), "f8")])
     amb = [np.abs(np.abs(np.asarray(rawx, "f8")) - 180.0) < 1e-6, np.abs(np.abs(np.asarray(rawy, "f8")) - 180.0) < 1e-6]
+    # a stencil point that falls (to 1e-9 deg) on a celestial pole has no defined right ascension: the
+    # finite difference in RA through it is arbitrary for the reference and for esutil alike
+    polx = (np.maximum(np.abs(np.asarray(dxp, "f8")), np.abs(np.asarray(dxm, "f8"))) > 90.0 - 1e-9)
+    poly = (np.maximum(np.abs(np.asarray(dyp, "f8")), np.abs(np.asarray(dym, "f8"))) > 90.0 - 1e-9)
+    amb = [amb[0] | polx, amb[1] | poly]
     for k in range(x.size):
         # (at a pole all four central differences vanish: floor the scale with the pixel scale)
         pixscale = 3600.0 * math.sqrt(abs(h["cd1_1"] * h["cd2_2"] - h["cd1_2"] * h["cd2_1"]))
         scale = max(float(np.max(np.abs(R[:, k]))), pixscale)
         for e, name in enumerate(("dra_dx", "dra_dy", "ddec_dx", "ddec_dy")):
             if e < 2 and amb[e][k]:
-                ctx.count("jacobian:ra-difference-at-180-skipped")
+                ctx.count("jacobian:ra-difference-at-180-or-through-a-pole-skipped")
                 continue
             require(abs(J[e, k] - R[e, k]) <= 1e-6 * scale,
                     "get_jacobian %s at pixel %r = %.12g, central difference of the FITS reference %.12g "
